@@ -243,3 +243,74 @@ def zero_instance(defn, mode=0, clsid=b"\x00\x00", forced=None, counts=None):
 
     gen(defn, 0, top)
     return top
+
+
+def cap_instance(defn, mode, clsid, forced=None, flags_on=True, max_payload=20000, salt=0):
+    """Deterministic instance whose counted groups are as large as the count field (or
+    the payload budget) allows, every other top-level one-bit flag set (or clear), and
+    all other leaves filled with a fixed pseudo-random pattern - e.g. ESF-MEAS with
+    numMeas = 31 and the calibration time tag present.  None if there is no count."""
+    import struct
+
+    cn = list(dict.fromkeys(G.count_names(defn)))
+    if not cn:
+        return None
+    f = {k: v for k, v in (forced or {}).items() if not isinstance(v, tuple)}
+    unit, width = {}, {}
+    for v in defn.values():
+        if G.is_group_def(v) and isinstance(v[0], str) and v[0] != "None":
+            unit[v[0]] = unit.get(v[0], 0) + max(1, G.group_unit_size(v[1]))
+
+    def widths(d):
+        for k, v in d.items():
+            if G.is_bitfield_def(v):
+                for fk, ft in v[1].items():
+                    width[fk] = (1 << codec.tsize(ft)) - 1
+                    if codec.tsize(ft) == 1 and fk not in cn and fk not in f and not fk.startswith("reserved"):
+                        f[fk] = 1 if flags_on else 0  # (fixed before the structure is laid out)
+            elif not G.is_group_def(v):
+                t = v[0] if isinstance(v, list) else v
+                if t != "CH" and t[0] in codec.INT_LETTERS:
+                    width[k] = codec.int_range(t)[1]
+
+    widths(defn)
+    budget = max(0, max_payload - G.min_size(defn))
+    counts = {}
+    for c in cn:
+        counts[c] = max(0, min(width.get(c, 255), budget // max(1, unit.get(c, 1)) // max(1, len(cn))))
+    nodes = zero_instance(defn, mode, clsid, forced=f, counts=counts)
+    k = [salt * 7919 + 1]
+    keep = set(cn) | set(f)
+
+    def fill(ns, depth):
+        for nd in ns:
+            k[0] = (k[0] * 1103515245 + 12345) & 0x7FFFFFFF
+            r = k[0]
+            if nd[0] == "f":
+                if depth == 0 and nd[1] in keep:
+                    continue
+                t = nd[2]
+                if t == "CH":
+                    nd[4] = b"text %d" % (r % 1000)
+                elif t[0] in codec.INT_LETTERS:
+                    lo, hi = codec.int_range(t)
+                    nd[4] = lo + r % (hi - lo + 1)
+                elif t[0] == "R":
+                    fmt = "<f" if codec.tsize(t) == 4 else "<d"
+                    nd[4] = int.from_bytes(struct.pack(fmt, (r % 2000 - 1000) / 8), "little")
+                elif t[0] in "XC":
+                    nd[4] = bytes((r >> (i % 3 * 8)) & 0xFF for i in range(codec.tsize(t)))
+                else:
+                    nd[4] = [(r + i) & 0xFF for i in range(codec.tsize(t))]
+            elif nd[0] == "b":
+                for fl in nd[3]:
+                    if (depth == 0 and fl[0] in keep) or fl[0].startswith("reserved"):
+                        continue
+                    k[0] = (k[0] * 1103515245 + 12345) & 0x7FFFFFFF
+                    fl[2] = k[0] % (1 << codec.tsize(fl[1]))
+            else:
+                for it in nd[2]:
+                    fill(it, depth + 1)
+
+    fill(nodes, 0)
+    return nodes
